@@ -21,7 +21,7 @@ CHECK = {
                 "(2) The real reference server (RunInReferenceMode, loopback, HTTP/1.1 and h2c) is asked by a plain net/http client for a sub-grid of the errors over "
                 "Connect / gRPC-Web / gRPC x unary / client-stream / server-stream x with/without response headers (about 5k-10k requests); the raw unary error JSON, "
                 "end-stream message, gRPC-Web trailer block, trailers-only headers and HTTP trailers must draw no feedback, directly, through examineWireDetails with a hand-built trace "
-                "and through the client's own capturing transport. (3) Every single malformation (about 60 classes: code missing/unknown/non-string, duplicate key at every nesting level, "
+                "and through the client's own capturing transport. (3) Every single malformation (57 classes: code missing/unknown/non-string, duplicate key at every nesting level, "
                 "unknown key, wrong JSON type per member, bad type name, padded/invalid base64, truncation at every byte, LF/CR for CRLF, missing final CRLF, blank line, upper-case key, "
                 "every illegal byte at every position of field names and values, bad percent-encoding, unescaped bytes, status missing/duplicated/non-numeric/out of range, "
                 "details-bin disagreeing in code or message, HTTP trailers outside gRPC) of 3-5 base renderings must draw >= 1 message. (4) Typed grammars of all member forms, judged by a model; "
